@@ -237,6 +237,12 @@ def ev(e: E, env: Dict[str, Any], macros: Dict[str, Macro], depth: int = 0) -> A
                 raise SqlError(f"Invalid Input Error: Could not parse string \"{args[0]}\" according to format specifier \"{args[1]}\": {ex}")
         if name == "replace":
             return str(args[0]).replace(str(args[1]), str(args[2]))
+        if name in ("regexp_matches", "regexp_full_match"):
+            import re as _re_
+            if args[0] is None or args[1] is None:
+                return None
+            m_ = (_re_.fullmatch if name == "regexp_full_match" else _re_.search)(str(args[1]), str(args[0]))
+            return m_ is not None
         raise ParseError(f"function {name}")
     raise ParseError(f"construct {k}:{e.val}")
 
